@@ -8,7 +8,7 @@ Require Import Proofs.BusSpecFacts Proofs.BusSpecInv Proofs.BusRel Proofs.BusUpd
    max_persist None or >= 1, driven through ANY history of the domain s_dom -- selections by label / list / slice /
    Boolean / position through loc, iloc or [], items(), values, keys, status, drop, reindex, sort_index, continuing on
    the derived Bus or not, file touched / rewritten / removed at any point, get / iter_element only where they cannot meet
-   a placeholder, sort_values only without max_persist -- makes the implementation model answer EXACTLY what the
+   a placeholder, sort_values only when max_persist is absent or >= the length of the Bus -- makes the implementation model answer EXACTLY what the
    specification answers: the same Frames (those an eager load returns), the same labels in the same order, the same
    loaded flags after every step, the same exceptions.  mode_ok: the store is read with one StoreConfig, or max_persist <> 1. *)
 Theorem C17_bus_refines_spec :
